@@ -508,10 +508,10 @@ func gitRm(x index, w wtree, spec string) result {
 	nx, nw := x.clone(), w.clone()
 	for _, q := range matched {
 		delete(nx, q)
-		if _, ok := nw[q]; ok {
-			delete(nw, q)
-			nw.pruneUp(q)
-		}
+		// git 2.39: the emptied parent directories are removed even when the
+		// file itself was already gone from the worktree
+		delete(nw, q)
+		nw.pruneUp(q)
 	}
 	return result{idx: nx, wt: nw}
 }
@@ -591,6 +591,11 @@ func gitClean(x index, w wtree, dirs bool) result {
 			}
 			if x.hasUnder(c) {
 				walk(c)
+				continue
+			}
+			if _, tracked := x[c]; tracked {
+				// git 2.39: a directory standing where the index has a file
+				// entry is left alone, contents included, with and without -d
 				continue
 			}
 			if !dirs || ig.ignored(c, true) {
